@@ -171,6 +171,18 @@ func (s *DeleteStmt) Validate(ctx *CheckCtx) error {
 }
 
 func (s *SelectStmt) ValidateFields(ctx *CheckCtx) error {
+	// A field that is nothing but the name of another field stands for that field
+	// (inside operators and function calls the checker resolves such names itself)
+	for i, f := range s.Fields {
+		if name, ok := f.(*NameExpr); ok {
+			if nexpr, have := ctx.GetNamedExpr(name.Data); have && nexpr != f {
+				s.Fields[i] = &FieldReferenceExpr{
+					Name:      name,
+					FieldExpr: nexpr,
+				}
+			}
+		}
+	}
 	for _, f := range s.Fields {
 		if err := s.validateField(f, ctx); err != nil {
 			return err
